@@ -893,3 +893,89 @@ def worker_symmetry(ctx: Ctx, rule: str) -> None:
     ctx.record(rule + "o", "COUNT", fref, "per worker: all its leaves are registered; of its object stubs every net object and every object whose id is not registered yet (no loss, no duplicate)",
                ok_nodes and ok_objs, {"new_objects": detail, "new_nodes": [ast.unparse(c) for c in nodes]},
                "" if ok_nodes and ok_objs else "the objects registered for a worker are not 'its nets plus everything not yet known': later workers lose their own vm/image variants (or shared ones are duplicated)")
+
+
+# ---------------------------------------------------------------------- expansion of flat nodes (lazy and eager entry)
+PNF = f"{G}.parse_nodes_from_flat_node_and_object"
+GAPF = f"{G}.get_and_parse_nodes_from_flat_node_and_object"
+
+
+def flat_expansion(ctx: Ctx, rule: str) -> None:
+    """A flat node is expanded for a net into one composite node per compatible net variant; failures are never silent
+    for required dependencies; already parsed equal nodes are reused instead of duplicated."""
+    fn = ctx.repo.func(PNF)
+    ctx.touch(PNF)
+    nodep, objp = fn.params()[1], fn.params()[2]
+    tries = [t for t in ast.walk(fn.node) if isinstance(t, ast.Try)]
+    t_obj = [t for t in tries if any(call_name(c) == "get_and_parse_objects_for_node_and_object" for s in t.body for c in calls_in(s))]
+    t_node = [t for t in tries if any(call_name(c) == "parse_node_from_object" for s in t.body for c in calls_in(s))]
+    if len(t_obj) != 1 or len(t_node) != 1:
+        raise AnalysisError(f"{PNF}: expected one try around the object lookup and one around the node parse")
+    # (1) incompatible net: only ValueError is absorbed, by returning no nodes
+    hs = t_obj[0].handlers
+    ok1 = len(hs) == 1 and ast.unparse(hs[0].type) == "ValueError" and isinstance(hs[0].body[-1], ast.Return) and ast.unparse(hs[0].body[-1].value) == "[]" \
+        and not any(isinstance(x, (ast.Raise,)) for x in ast.walk(hs[0]))
+    ctx.record(rule + "v", "TABLE", PNF, "object lookup: only ValueError (no compatible net for this node) is absorbed and yields no nodes; anything else propagates", ok1,
+               {"handlers": [ast.unparse(h.type) if h.type else "bare" for h in hs]}, "" if ok1 else "other errors of the object lookup are swallowed too, or an incompatible net is no longer skipped")
+    # (2) empty product of the node parse: re-raised when the node is a required dependency, else this net only is skipped
+    hs = t_node[0].handlers
+    ok2 = len(hs) == 1 and ast.unparse(hs[0].type) == "param.EmptyCartesianProduct"
+    if ok2:
+        first = hs[0].body[0]
+        want = norm.formula(ast.parse(f"{nodep}.params.get('require_existence', 'no') == 'yes'", mode="eval").body)
+        ok2 = isinstance(first, ast.If) and norm.equivalent(norm.formula(first.test), want) and len(first.body) == 1 and isinstance(first.body[0], ast.Raise) \
+            and first.body[0].exc is None and not first.orelse \
+            and not any(isinstance(x, (ast.Return, ast.Break, ast.Raise)) for s_ in hs[0].body[1:] for x in ast.walk(s_))
+    ctx.record(rule + "e", "TABLE", PNF, "node parse: EmptyCartesianProduct is re-raised iff require_existence == yes (a declared dependency must exist); otherwise only this net variant is skipped", ok2, {},
+               "" if ok2 else "a required dependency that cannot be parsed is skipped silently (or an optional incompatible variant aborts the expansion)")
+    # (3) one node per net variant, all kept
+    loop = [l for l in ast.walk(fn.node) if isinstance(l, ast.For) and any(x is t_node[0] for x in l.body)]
+    ok3 = len(loop) == 1 and ast.unparse(loop[0].iter) == "enumerate(test_nets)"
+    defs = {}
+    for s in ast.walk(fn.node):
+        if isinstance(s, ast.Assign) and len(s.targets) == 1:
+            defs.setdefault(ast.unparse(s.targets[0]), []).append(ast.unparse(s.value))
+    if ok3:
+        j, net = (e.id for e in loop[0].target.elts)
+        app = [c for s in t_node[0].orelse for c in calls_in(s) if call_name(c) == "append" and ast.unparse(c.func.value) == "test_nodes"]
+        ok3 = (len(app) == 1 and ast.unparse(app[0].args[0]) == "new_node" and defs.get("test_nets") == ["get_nets + parse_nets"]
+               and defs.get("j_prefix") == [f"'b' + str({j}) if {j} > 0 else ''"] and defs.get("node_prefix") == ["prefix + j_prefix"]
+               and defs.get("new_node") == [f"self.parse_node_from_object({net}, {nodep}.params['name'], prefix=node_prefix, params=params)"]
+               and defs.get("new_node.params['object_root']") == [f"{nodep}.params.get('dep_id', {net}.id)"]
+               and isinstance(fn.node.body[-1], ast.Return) and ast.unparse(fn.node.body[-1].value) == "test_nodes")
+    ctx.record(rule + "n", "COUNT", PNF, "one node per reused-or-new net variant (prefix + 'b<j>' from the second on), every parsed node is returned; object roots carry the dependent object's id as fingerprint",
+               ok3, {k: defs.get(k) for k in ("test_nets", "j_prefix", "node_prefix", "new_node.params['object_root']")}, "" if ok3 else "the expansion of a flat node per net variant changed (variants lost, mis-prefixed, or object roots without fingerprint)")
+    # ---- reuse-or-parse around it
+    f2 = ctx.repo.func(GAPF)
+    ctx.touch(GAPF)
+    n2, o2 = f2.params()[1], f2.params()[2]
+    d2 = {}
+    for s in sorted((x for x in ast.walk(f2.node) if isinstance(x, ast.Assign) and len(x.targets) == 1), key=lambda x: x.lineno):
+        d2.setdefault(ast.unparse(s.targets[0]), []).append(ast.unparse(s.value))
+    ok4 = (d2.get("setup_restr") == [f"{n2}.setless_form"] and d2.get("setup_obj_restr") == [f"{o2}.component_form"]
+           and d2.get("filtered_children") == ["self.get_nodes_by_name(setup_restr)", "self.get_nodes('name', f'(\\\\.|^){setup_obj_restr}(\\\\.|$)', subset=filtered_children)",
+                                               "[n for n in filtered_children if not n.is_flat()]"])
+    ctx.record(rule + "c", "PROV", GAPF, "already expanded children of a flat node = nodes of its set-invariant name, of this net, that are not flat themselves", ok4,
+               {"filtered_children": d2.get("filtered_children")}, "" if ok4 else "the lookup of already expanded children of a flat node changed")
+    rets = [r for r in ast.walk(f2.node) if isinstance(r, ast.Return)]
+    early = [r for r in rets if ast.unparse(r.value) == "(filtered_children, [])"]
+    ok5 = len(early) == 1
+    if ok5:
+        parent_if = [i for i in ast.walk(f2.node) if isinstance(i, ast.If) and any(x is early[0] for x in i.body)]
+        ok5 = len(parent_if) == 1 and norm.equivalent(norm.formula(parent_if[0].test), norm.formula(ast.parse("unique_new_node and len(filtered_children) == 1", mode="eval").body))
+    ctx.record(rule + "u", "GUARD", GAPF, "a single already expanded child is returned without parsing only when unique nodes are requested", ok5, {},
+               "" if ok5 else "expansion is skipped for a flat node although more variants may have to be parsed")
+    # every freshly parsed node is either replaced by its already parsed equals (their clones for a clone source) or reported as new
+    outer = [l for l in f2.node.body if isinstance(l, ast.For) and ast.unparse(l.iter) == "new_nodes"]
+    ok6 = len(outer) == 1 and d2.get("new_nodes") == [f"self.parse_nodes_from_flat_node_and_object({n2}, {o2}, prefix, params=params, verbose=verbose)"] \
+        and d2.get("old_nodes") == ["self.get_nodes_by_name(new_node.setless_form)"]
+    if ok6:
+        l = outer[0]
+        tail = [s for s in l.body if isinstance(s, ast.If)]
+        ok6 = (len(tail) == 1 and norm.equivalent(norm.formula(tail[0].test), norm.formula(ast.parse("len(old_nodes) == 0", mode="eval").body))
+               and any(call_name(c) == "append" and ast.unparse(c.func.value) == "parse_nodes" and ast.unparse(c.args[0]) == l.target.id for s in tail[0].body for c in calls_in(s))
+               and d2.get("nodes_to_add") == ["old_node.cloned_nodes", "[old_node]"]
+               and any(isinstance(i, ast.If) and ast.unparse(i.test) == "node_to_add not in get_nodes" for i in ast.walk(l))
+               and ast.unparse(f2.node.body[-1]) == "return (get_nodes, parse_nodes)")
+    ctx.record(rule + "p", "COUNT", GAPF, "each freshly parsed node is replaced by its already parsed equals (a clone source by its clones, no duplicates) or reported as new: none dropped, none doubled",
+               ok6, {"nodes_to_add": d2.get("nodes_to_add")}, "" if ok6 else "freshly parsed nodes of a flat expansion are lost or duplicated against the already parsed ones")
